@@ -1,6 +1,7 @@
 import M3d.Basic
 import M3d.Model.Surface
 import M3d.Model.MeshDiag
+import M3d.Model.MeshDiagSweep
 /-!
 Line-protocol handler for C11.  Core-only.
 
@@ -499,8 +500,36 @@ def handleHier3 (ts : List Tri) (cs : Array P3) (qs : List P3) : String :=
   let model := showHier (pairs.map (·.1)) fun c => ((pairs.find? fun p => sortNats p.1 == c).map (·.2)).join
   let mcont := qs.map fun q => Forest.contains (fun (x : Comp) => (inside3 (geoOf x.2) q).getD false) forest
   let mfull := sortNats ((Forest.fullMesh (fun (x : Comp) => x.2) forest).map (·.1)) == List.range ts.length
+  -- the hypothesis of `hierarchy_sweep_order_from_key`: an encloser has a vertex whose key is
+  -- smaller than the key of every vertex of the enclosed component
+  let keyOf := fun (v : Nat) => dot3 cs[v]! axis3
+  let minKey := fun (c : List Face) =>
+    (c.flatMap fun f => triVerts f.2).foldl (fun (m : Option Rat) v =>
+      match m with
+      | none => some (keyOf v)
+      | some k => some (if keyOf v < k then keyOf v else k)) none
+  let sweepOK := comps.all fun a => (enclosers a).all fun b =>
+    match minKey b, minKey a with
+    | some kb, some ka => decide (kb < ka)
+    | _, _ => false
+  -- the bounding-box shortcut with the far corner (`bbox_far_corner_prefilter_sound`) changes nothing
+  let v3 := fun (p : P3) => (⟨p.x, p.y, p.z⟩ : Vec3 Rat)
+  let bbox := fun (c : List Face) =>
+    (c.flatMap fun f => triVerts f.2).foldl (fun (b : Option (Vec3 Rat × Vec3 Rat)) v =>
+      let p := cs[v]!
+      match b with
+      | none => some (v3 p, v3 p)
+      | some (lo, hi) => some (⟨min lo.x p.x, min lo.y p.y, min lo.z p.z⟩, ⟨max hi.x p.x, max hi.y p.y, max hi.z p.z⟩)) none
+  let keepFar := cornerKeep (v3 axis3)
+    (fun (y : Comp) => match bbox y.2 with
+      | some (lo, hi) => farCorner (v3 axis3) lo hi
+      | none => ⟨0, 0, 0⟩) (fun v => v3 cs[v]!)
+  let forestFar := meshToHierarchy (rootKeep keepFar encTop) encIn order ts
+  let farOK := forestPairs forestFar none == pairs
   s!"ok {spec} full=ok cont={bitsStr (cont.map (·.getD false))}" ++
     (if !laminar then " NONLAMINAR" else "") ++
+    (if !sweepOK then " MODELDIFF:sweep-key" else "") ++
+    (if !farOK then " MODELDIFF:far-corner" else "") ++
     (if model != spec then " MODELDIFF:nesting" else "") ++
     (if mcont != cont.map (·.getD false) then " MODELDIFF:contains" else "") ++
     (if !mfull then " MODELDIFF:full" else "")
